@@ -504,7 +504,7 @@ def run(tier):
     rep = Report(PROP, tier, 'other')
     rep.functions = FUNCTIONS
     tasks = tasks_for(tier)
-    for r in run_pool(worker, tasks, limit_s=150 if tier == 'quick' else 900):
+    for r in run_pool(worker, tasks, limit_s=150 if tier == "quick" else 400):
         rep.merge(r)
     rep.explanation = ('Three layers: TR cards to 12 numbers (proper rotation reproducing supplied entries), one surface of every kind under a TR '
                        '(all card parameters and the displacement symbolic; rotation from the exact finite set or a symbolic one-angle family), '
